@@ -218,7 +218,7 @@ def io_check(run, suites, judge_props, snapshots=True):
                 continue
             first_trace = first_trace or t
             io.judge_trace(t, h, 'tv-%s-%d' % (s['name'], i))
-    if first_trace:
+    if first_trace and not run.violations:
         io.negative_controls(first_trace)
     run.assumptions += [
         'durability model: sync_all makes durable exactly the writes completed before it was called; content found at open is durable (as pearl assumes)',
